@@ -54,6 +54,7 @@ def run(P, R, tier, cfg):
                 if c.resolved and c.resolved.endswith("::search_with_execution") and c.bb in fn.normal_blocks():
                     for a in c.args:
                         vp |= _params_in(fn, fn.sym_operand(a))
+            _cached_is_answered(P, R, fn, w, val, reads)
             names = {i: (fn.locals[i][1] or "_%d" % i) for i in range(1, fn.argc + 1)}
             missing = sorted(p for p in vp - kp if p != 1)
             R.sample({"clause": "a", "fn": fn.name, "key": fmt_sym(key, maxdepth=8)[:200], "value_inputs": [names[p] for p in sorted(vp) if p in names], "key_inputs": [names[p] for p in sorted(kp) if p in names]})
@@ -130,6 +131,58 @@ def _key_injective(P, R, kf):
         R.hold("a", "key function %s renders every fact value injectively (Debug / hash of the value itself; %d uses)" % (kf.short_name, seen_value), fn=kf)
     else:
         R.undecide("a", "memo-key-values:%s" % kf.short_name, "no use of a fact value found in the key function (cannot tell how values enter the key)", kf)
+
+
+def _cached_is_answered(P, R, fn, w, val, reads):
+    """What is memoised is what was answered: the boolean stored with cache_result is the very value that selects between
+    QueryResult::success* and QueryResult::failure for this call, and a cached `true` replays success / `false` failure."""
+    QR = "backward::query::QueryResult"
+    succ = [c for c in fn.calls() if c.bb in fn.normal_blocks() and c.resolved and c.resolved.startswith(QR + "::success")]
+    fail = [c for c in fn.calls() if c.bb in fn.normal_blocks() and c.resolved == QR + "::failure"]
+    after = fn.reach(w.bb)
+    vtxt = fmt_sym(strip(val), maxdepth=10)
+    decided = None
+    for b in sorted(fn.normal_blocks()):
+        if fn.term(b)[2] != "switch" or not A.bool_edges(fn, b) or b not in after:
+            continue
+        fe, te = A.bool_edges(fn, b)
+        s_t = [c for c in succ if c.bb in fn.reach(te) and c.bb not in fn.reach(fe)]
+        f_f = [c for c in fail if c.bb in fn.reach(fe) and c.bb not in fn.reach(te)]
+        s_f = [c for c in succ if c.bb in fn.reach(fe) and c.bb not in fn.reach(te)]
+        f_t = [c for c in fail if c.bb in fn.reach(te) and c.bb not in fn.reach(fe)]
+        if (s_t and f_f) or (s_f and f_t):
+            atom, v = A.norm_bool(fn.sym_switch(b), True, maxdepth=10)
+            pos = bool(s_t and f_f) == bool(v)
+            decided = (fmt_sym(strip(fn.sym_switch(b)), maxdepth=10), atom, pos, fn.term(b)[0])
+    if decided is None:
+        R.undecide("a", "memo-value:%s" % fn.short_name, "the switch choosing between QueryResult::success and ::failure after the search was not found", fn, w.line)
+        return
+    watom, wv = A.norm_bool(val, True, maxdepth=10)
+    if decided[1] == watom and decided[2] == bool(wv):
+        R.hold("a", "%s: the memoised boolean is the value that selects success/failure of this answer (%s)" % (fn.short_name, watom[:60]), fn=fn, line=w.line)
+    else:
+        R.violate("a", "memo-value-differs:%s" % fn.short_name,
+                  "%s memoises `%s` but answers according to `%s`%s: where the two differ (e.g. a negated goal under max_solutions > 1) the next identical query is answered from the cache with the opposite verdict" % (
+                      fn.short_name, vtxt[:80], decided[1][:80], "" if decided[2] else " (negated)"), fn, w.line)
+    # replay polarity on the cached path
+    for r in reads:
+        for b in sorted(fn.normal_blocks()):
+            if fn.term(b)[2] != "switch" or not A.bool_edges(fn, b):
+                continue
+            sw = fn.sym_switch(b)
+            if not any(x[0] == "call" and x[3] == r.bb for x in walk(sw)):
+                continue
+            c0 = strip(sw)
+            if c0[0] == "discr":
+                continue
+            fe, te = A.bool_edges(fn, b)
+            atom, v = A.norm_bool(sw, True, maxdepth=10)
+            s_t = any(c.bb in fn.reach(te) and c.bb not in fn.reach(fe) for c in succ)
+            f_t = any(c.bb in fn.reach(te) and c.bb not in fn.reach(fe) for c in fail)
+            if (s_t and v) or (f_t and not v):
+                R.hold("a", "%s: a cached true replays success, a cached false failure" % fn.short_name, fn=fn, line=fn.term(b)[0])
+            elif s_t or f_t:
+                R.violate("a", "memo-replay-inverted:%s" % fn.short_name, "%s replays a cached `%s` as %s" % (fn.short_name, v, "success" if s_t else "failure"), fn, fn.term(b)[0])
 
 
 def _same_key_fn(fn, a, b):
